@@ -329,6 +329,90 @@ def run_ck(ctx):
         ck_e3(ctx, 1500, 6)
 
 
+# Bloom filter and the HashSet reference implementation of Filter
+def bl_e1(ctx, shapes):
+    for (m, k, elems) in shapes:
+        c = {"M": m, "Kh": k, "Elems": "{" + ",".join("e%d" % i for i in range(elems)) + "}"}
+        ctx.e1.append(vlib.model_check("MC_Bloom", c, ["NoFalseNeg", "ReplayEq", "EmptyIff"], ctx.sub("e1")))
+
+
+def bl_e2(ctx, shapes, n_fs, pairs, reps=2):
+    for (m, k) in shapes:
+        w = ctx.sub("bl_%d_%d" % (m, k))
+        fss = vlib.vh(["learn", "bl", "--m", str(m), "--k", str(k), "--n", str(n_fs), "--seed", str(ctx.seed)], w)["fs"]
+        for fi, fs in enumerate(fss):
+            c = {"M": m, "Kh": k, "FSCODE": sum((x % m) * (m ** i) for i, x in enumerate(fs)), "EMIT": "TRUE"}
+            gen, st = vlib.generate("Gen_Bloom", c, w, "gen%d.out" % fi)
+            pf, h, mm = [os.path.join(w, "%s%d.ndjson" % (x, fi)) for x in ("p", "hist", "m")]
+            stats = vlib.vh(["replay", "bl", "--gen", gen, "--out", pf, "--hist", h, "--mout", mm, "--reps", str(reps), "--max-alt", "50",
+                             "--pairs", str(pairs), "--pair-op", "union", "--seed", str(ctx.seed)], w)
+            os.remove(gen)
+            if stats.get("missing"):
+                raise ToolError("replay could not reach %d emitted transitions" % stats["missing"])
+            ctx.e2_transitions += stats["transitions"] + stats["pairs"]
+            ctx.executed += stats["executed"] + stats["alt_executed"] + stats["pairs"]
+            ctx.drift += stats["drift"]
+            ctx.drift_notes += stats.get("first_drift", [])
+            ctx.add_tags(stats.get("tags"), stats.get("tagged_distinct"))
+            ctx.extra.setdefault("state_graphs", []).append({"structure": "BloomFilter", "m": m, "k": k, "shift_vector": fs, "spec_states": st["distinct"],
+                                                             "materialised_as_real_objects": stats["states"], "union_pairs": stats["pairs"]})
+            n, rej = vlib.adjudicate("P_SetFilter", pf, w)
+            ctx.judged += n
+            add_rejects(ctx, rej, pf, "bl", "P_SetFilter", hist=h)
+            if fi == 0:
+                sample_records(ctx, pf, 1, '"union"')
+            if stats["pairs"]:
+                nm, drift = vlib.mvalidate("Trace_Bloom", {"M": m, "Kh": k}, mm, w)
+                ctx.mvalidated += nm
+                ctx.drift += len(drift)
+
+
+def setfilter_e3(ctx, tag, scenarios):
+    w = ctx.sub(tag + "_e3")
+    scf = os.path.join(w, "scenarios.ndjson")
+    vlib.vh(["drive", tag, "--out", scf, "--seed", str(ctx.seed), "--scenarios", str(scenarios)], w)
+    p = os.path.join(w, "p.ndjson")
+    stats = vlib.vh(["scenario", tag, "--in", scf, "--out", p], w)
+    ctx.e3_calls += stats["calls"]
+    ctx.executed += stats["calls"]
+    n, rej = vlib.adjudicate("P_SetFilter", p, w)
+    ctx.judged += n
+    add_rejects(ctx, rej, p, tag, "P_SetFilter", scenarios=scf)
+    sample_records(ctx, p, 1, '"union"')
+
+
+def run_bl(ctx):
+    if ctx.quick:
+        bl_e1(ctx, [(1, 1, 2), (3, 2, 2), (2, 3, 3)])
+        bl_e2(ctx, [(3, 2), (4, 3), (6, 3)], n_fs=2, pairs=5000)
+        setfilter_e3(ctx, "bl", 60)
+        setfilter_e3(ctx, "hs", 20)
+    else:
+        bl_e1(ctx, [(1, 1, 2), (3, 2, 3), (4, 2, 3), (2, 3, 3), (4, 3, 2)])
+        bl_e2(ctx, [(2, 1), (3, 2), (4, 2), (4, 3), (5, 3), (6, 3), (7, 4), (8, 2)], n_fs=8, pairs=70000)
+        setfilter_e3(ctx, "bl", 1500)
+        setfilter_e3(ctx, "hs", 300)
+
+
+def run_C01(ctx):
+    run_bl(ctx)
+    run_ck(ctx)
+    run_C13(ctx)
+
+
+def run_C06_filters(ctx):
+    run_bl(ctx)
+    run_ck(ctx)
+    if ctx.quick:
+        qf_e1(ctx, [], union_shapes=[(1, 1), (2, 1)], alg_shapes=[(1, 1), (1, 2)])
+        qf_e2(ctx, [(2, 1), (2, 2)], pairs=27000)
+        qf_e3(ctx, 40, 8)
+    else:
+        qf_e1(ctx, [], union_shapes=[(1, 1), (2, 1), (1, 2)], alg_shapes=[(1, 1), (1, 2), (2, 1)])
+        qf_e2(ctx, [(2, 1), (1, 2), (2, 2), (3, 1)], pairs=300000)
+        qf_e3(ctx, 600, 16)
+
+
 def handle_hang(ctx, stats, records, tag, pspec, hist=None):
     for h in stats.get("hang", []):
         ctx.rejects.append({"tid": h.get("tid", 0), "clause": PROPS[ctx.pid].get("hang_clause", ctx.pid + ".total: a call did not return (hang)"),
@@ -356,6 +440,10 @@ CK_ASSUME = ["TLC and the TLA+ P-spec P_Cuckoo are the judge of every executed c
 
 PROPS = {
     "C14": {"run": run_ck, "level": "model_checking", "rule": CK_RULE, "assumptions": CK_ASSUME},
+    "C01": {"run": run_C01, "level": "model_checking",
+            "rule": "Bloom: E1 over every hasher (h1,h2,f) for the listed (m,k), E2 every transition over all (h1,h2) pairs for shift vectors of real hashers; "
+                    "cuckoo as C14; quotient filter as C13; HashSet reference through E3 scenarios; non-trivial = tagged by a coverage predicate of the specs",
+            "assumptions": CK_ASSUME},
     "C12": {"run": lambda ctx: (run_ck(ctx), run_C13(ctx)), "level": "model_checking", "rule": CK_RULE + "; quotient filter as C13", "assumptions": CK_ASSUME},
     "C13": {"run": run_C13, "level": "model_checking",
             "rule": "E1: every reachable state of the quotient-filter M-spec for the listed (q,r); E2: every emitted transition executed "
